@@ -78,6 +78,11 @@ def gen_problem(rng, maxm=11, maxn=6, defect=None, subset=None, covkind=None):
         d = min(d, n - 1)
         m = rng.randint(n + 1, maxm)
         r = n - d
+        if rng.random() < 0.15:
+            # as many or fewer equations than unknowns (free networks without redundancy): defect >= n - m
+            m = rng.randint(1, n)
+            r = rng.randint(1, max(1, min(m, n - (defect or 0))))
+            d = n - r
         base = [[rng.choice([-3, -2, -1, 0, 0, 1, 1, 2, 3]) for _ in range(r)] for _ in range(m)]
         # dependent columns: small integer combinations of the base columns, inserted at random positions
         cols = [[row[j] for row in base] for j in range(r)]
